@@ -170,6 +170,9 @@ func HarnessC01Names() {
 		"{% macro " + N + "(" + A + ") %}{{ " + A + " }}{% endmacro %}{{ " + N + "(" + B + ") }}{{ " + N + "(" + N + ") }}",
 		"{% firstof " + A + " " + N + " %}{% ifchanged " + N + " %}{{ " + A + " }}{% endifchanged %}",
 		"{% cycle " + A + " as " + N + " %}{% with " + A + "=" + N + " %}{% cycle " + N + " %}{{ " + A + " }}{% endwith %}",
+		// named cycle values that refer to each other: a ring of two and of three values
+		"{% cycle 1 " + B + " as " + A + " silent %}{% cycle 2 " + A + " as " + B + " silent %}{% cycle " + A + " %}{% cycle " + B + " %}{{ " + N + " }}",
+		"{% cycle 1 y as x silent %}{% cycle 2 z as y silent %}{% cycle 3 x as z silent %}{% cycle x %}{% cycle y %}{% cycle z %}{{ " + N + " }}{% cycle " + N + " %}",
 	}
 	src := forms[verifChoice(len(forms))]
 	verifObserve("src", src)
